@@ -43,7 +43,7 @@ def load_lib(path):
 
 
 def match(exp, obs):
-    if exp == "any":
+    if exp == "any" or exp == -9 or exp == -8:      # -9: "this value is not constrained" (HElem.Z)
         return True
     if isinstance(exp, list) and isinstance(obs, list):
         return len(exp) == len(obs) and all(match(a, b) for a, b in zip(exp, obs))
